@@ -39,7 +39,8 @@ impl MerkleTree {
 }
 
 impl MerkleTree {
-    // ASSUMED here (commit_truncation is not under contract in any unit; flush_nodes is proved in unit merkle_create): touches only the pending-write bookkeeping
+    // ASSUMED here as seen by core.rs; PROVED in unit merkle_create (frag/merkle_create.rs) against a stronger contract (exact truncate_to, no pending
+    // node at or beyond the new head, blanks only below it) under the precondition ancestors <= 0xff_ffff_ffff, which callers here are not shown to establish
     #[verifier::external_body]
     pub fn commit_truncation(&mut self, changeset: &MerkleTreeChangeset)
         ensures final(self).roots == old(self).roots, final(self).length == old(self).length, final(self).byte_length == old(self).byte_length,
